@@ -1723,8 +1723,9 @@ func createSchemaFromTypeWithCycleDetection(fieldType reflect.Type, fieldInfo ta
 		return applyParsedTagRules(schema, fieldInfo)
 	}
 
-	// Otherwise, create schema normally for non-struct types
-	return createSchemaFromTypeWithInfo(fieldType, fieldInfo)
+	// Otherwise, create schema normally for non-struct types; the element
+	// types of maps and nested slices are walked with the same visited set
+	return createSchemaFromTypeWithInfo(fieldType, fieldInfo, visited)
 }
 
 // createLazySchemaForType creates a lazy schema for circular reference types
@@ -1814,8 +1815,9 @@ func createLazySchemaForType(fieldType reflect.Type, fieldInfo tagparser.FieldIn
 	return lazySchema
 }
 
-// createSchemaFromTypeWithInfo creates a basic schema based on Go type with field info
-func createSchemaFromTypeWithInfo(fieldType reflect.Type, fieldInfo tagparser.FieldInfo) core.ZodSchema {
+// createSchemaFromTypeWithInfo creates a basic schema based on Go type with field info.
+// visited holds the struct types on the path from the root (cycle detection).
+func createSchemaFromTypeWithInfo(fieldType reflect.Type, fieldInfo tagparser.FieldInfo, visited map[reflect.Type]bool) core.ZodSchema {
 	// Check if coercion is enabled
 	hasCoerce := false
 	for _, rule := range fieldInfo.Rules {
@@ -2037,7 +2039,7 @@ func createSchemaFromTypeWithInfo(fieldType reflect.Type, fieldInfo tagparser.Fi
 	case reflect.Slice, reflect.Array:
 		// Handle slices and arrays
 		elemType := fieldType.Elem()
-		elemSchema := createSchemaFromType(elemType)
+		elemSchema := createSchemaFromType(elemType, visited)
 		if elemSchema != nil {
 			if isPointer {
 				// For pointer to slice (*[]T), use SlicePtr
@@ -2052,7 +2054,7 @@ func createSchemaFromTypeWithInfo(fieldType reflect.Type, fieldInfo tagparser.Fi
 	case reflect.Map:
 		// Handle maps
 		valueType := fieldType.Elem()
-		valueSchema := createSchemaFromType(valueType)
+		valueSchema := createSchemaFromType(valueType, visited)
 		if valueSchema != nil {
 			if isPointer {
 				// For pointer to map (*map[K]V), use MapPtr
@@ -2088,7 +2090,7 @@ func createSchemaFromTypeWithInfo(fieldType reflect.Type, fieldInfo tagparser.Fi
 			// For other structs, create a nested schema
 			// This should never be reached in the cycle detection path
 			// as createSchemaFromTypeWithCycleDetection handles it
-			schema = createNestedStructSchema(fieldType)
+			schema = createNestedStructSchema(fieldType, visited)
 			if isPointer {
 				// Make nested struct nilable if it's a pointer and not required
 				if !fieldInfo.Required {
@@ -2110,14 +2112,14 @@ func createSchemaFromTypeWithInfo(fieldType reflect.Type, fieldInfo tagparser.Fi
 }
 
 // createSchemaFromType creates a basic schema based on Go type
-func createSchemaFromType(fieldType reflect.Type) core.ZodSchema {
+func createSchemaFromType(fieldType reflect.Type, visited map[reflect.Type]bool) core.ZodSchema {
 	// This is the original function used by other places
 	// Create a dummy field info that doesn't have required flag
 	dummyFieldInfo := tagparser.FieldInfo{
 		Required: false,
 		Optional: true,
 	}
-	return createSchemaFromTypeWithInfo(fieldType, dummyFieldInfo)
+	return createSchemaFromTypeWithInfo(fieldType, dummyFieldInfo, visited)
 }
 
 // applyParsedTagRules applies validation rules from parsed tagparser.FieldInfo
@@ -2977,11 +2979,17 @@ func createMapPtrSchema(valueSchema core.ZodSchema, valueType reflect.Type) core
 }
 
 // Helper function to create nested struct schema
-func createNestedStructSchema(structType reflect.Type) core.ZodSchema {
+func createNestedStructSchema(structType reflect.Type, visited map[reflect.Type]bool) core.ZodSchema {
+	// A struct type that is already being expanded (type R struct{ M map[string]R },
+	// [][]R, map[string]*R) is a circular reference: expand it lazily at parse
+	// time instead of recursing without end
+	if visited[structType] {
+		return createLazySchemaForType(structType, tagparser.FieldInfo{Type: structType, Optional: true})
+	}
 	// Check if struct has any gozod tags
 	if hasGozodTags(structType) {
-		// Parse nested struct tags recursively
-		fieldSchemas := parseStructTagsToSchemas(structType)
+		// Parse nested struct tags recursively, on the same path
+		fieldSchemas := parseStructTagsToSchemasWithCycleDetection(structType, visited)
 		if len(fieldSchemas) > 0 {
 			return Object(fieldSchemas)
 		}
